@@ -8,7 +8,7 @@ applied to the concatenation (so chunked == whole == documented line/record rule
 import itertools
 
 from vf.engine import Obl
-from vf.gen import harness, indent
+from vf.gen import harness, indent, str_params
 
 INFO = {
     'explanation': 'Each obligation: for EVERY text cut into pieces of the stated lengths (any Unicode characters) the real reader, asked with the stated chunk size, '
@@ -40,14 +40,20 @@ CONFIGS = {
 
 def _obl(cfg_name, lens, chunk, timeout):
     c = CONFIGS[cfg_name]
-    params = [('p%d' % i, 'str') for i in range(len(lens))]
-    pre = ['len(p%d) == %d' % (i, l) for i, l in enumerate(lens)]
+    params, pre, exprs = [], [], []
+    for i, l in enumerate(lens):
+        p_, pre_, e_ = str_params('p%d' % i, l)
+        params += p_
+        pre += pre_
+        exprs.append(e_)
+    if not params:
+        params, pre = [('dummy', 'int')], ['dummy == 0']
     body = indent('''
 pieces = [%s]
 got = csvh.read_all(pieces, ENC, DLM, POLICY, HEADER, COMMENT, CHUNK)
 exp = csvref.expected_read(''.join(pieces), DLM, POLICY, HEADER, COMMENT, ENC)
 return (got, exp)
-''' % ', '.join(n for n, _t in params))
+''' % ', '.join(exprs))
     imports = 'from vf import csvh\nfrom vf.refmodel import csvref\nDLM = %r\nPOLICY = %r\nHEADER = %r\nCOMMENT = %r\nENC = %r\nCHUNK = %r\n' % (
         c['dlm'], c['policy'], c['header'], c['comment'], c['enc'], chunk)
     src = harness(imports, params, pre, body)
